@@ -108,6 +108,12 @@ func replayPrune(c *core.Ctx, lfsBin string, b *behaviour, idx int) (*core.Viola
 			if err := w.AddWorktree(s.str("b")); err != nil {
 				return nil, err
 			}
+		case "delbranch":
+			w.logf("git branch -D %s", s.str("b"))
+			if r := w.Env.Git(w.Clone, "branch", "-D", s.str("b")); !r.OK() {
+				return nil, fmt.Errorf("delbranch: %s", r.All())
+			}
+			delete(w.Br, s.str("b"))
 		case "prune":
 			before := w.LocalOids()
 			if fmt.Sprint(before) != fmt.Sprint(toStrings(s["localBefore"])) {
@@ -196,7 +202,25 @@ func init() {
 		c.Set("transitions", r.Generated)
 		samplePriority = func(class string) bool { return strings.Contains(class, "sole:") }
 		bs, total, nclasses := sampleBehaviours(c, r.OutFile, "flags", budget)
+		// the merge family: longer histories with merges and deletion of the merged branch (spec PSpecM)
+		mcfg, mbudget := "Prune_merge_q.cfg", 160
+		if !c.Quick() {
+			mcfg, mbudget = "Prune_merge_t.cfg", 1200
+		}
+		mg := writeCfgVariant(c, mcfg, "Prune_merge_gen.cfg", map[string]string{"Emit = FALSE": "Emit = TRUE", "EmitSel = 0": fmt.Sprintf("EmitSel = %d", c.Seed%3)})
+		rm := c.TLC(core.TLCOpts{Module: "Prune", Cfg: mg, Workers: 8, Timeout: 40 * time.Minute, HeapGB: 12})
+		c.MustPass(rm, "Prune/"+mcfg)
+		c.Set("merge_family_states", rm.Distinct)
+		samplePriority = func(class string) bool {
+			return strings.Contains(class, "side-only") && strings.Contains(class, "sole:unpushed")
+		}
+		mbs, mtotal, mclasses := sampleBehaviours(c, rm.OutFile, "flags", mbudget)
 		samplePriority = nil
+		c.Set("merge_family_prune_edges_emitted", mtotal)
+		c.Set("merge_family_classes", mclasses)
+		c.Set("merge_family_replayed", len(mbs))
+		bs = append(bs, mbs...)
+		requireActions(c, "delbranch", "merge")
 		requireActions(c, "commit", "committree", "push", "otherpush", "stage", "stash", "switch", "serverloses", "worktree", "otherremote", "prune")
 		c.Set("prune_edges_emitted", total)
 		c.Set("behaviour_classes", nclasses)
@@ -218,6 +242,6 @@ func init() {
 		for i := 0; i < len(bs); i += len(bs)/4 + 1 {
 			c.Sample(json.RawMessage(bs[i].raw))
 		}
-		c.Assume("commit dates are 0 or 20 days before now, far from the 10-day retention boundary; fetchrecentcommitsdays stays at its default 0; at most one linked worktree (prune run from either side); at most one remote-tracking ref of a second remote; detached HEAD is not yet in the model")
+		c.Assume("commit dates are 0 or 20 days before now, far from the 10-day retention boundary; fetchrecentcommitsdays stays at its default 0; at most one linked worktree (prune run from either side); at most one remote-tracking ref of a second remote; branch deletion only in the merge family (one path, dates all recent, prune from the main worktree); detached HEAD is not yet in the model")
 	}
 }
